@@ -71,6 +71,9 @@ namespace GeographicLib {
       R = hypot(X/2, Y/2);
       slam = R != 0 ? (Y/2) / R : 0;
       clam = R != 0 ? (X/2) / R : 1;
+      if (R != 0 &&
+          R < numeric_limits<real>::min() / numeric_limits<real>::epsilon())
+        Math::norm(slam, clam);
       real H = hypot(Z/2, R);
       sphi = (Z/2) / H;
       cphi = R / H;
